@@ -10,8 +10,9 @@ head = """## 8. Cost summary (as built, this box, warm build)
 
 Quick column: the evidence files committed with this tree (`tools/final_regen.sh`, one check at a time on an otherwise
 idle machine). Thorough column: the final validation of the frozen harness - every thorough check was run once on the
-unchanged tree through `vp run` (several runs side by side, so the wall times are those of a loaded 16-core machine: a
-check alone is 2-3 times faster; C03 / C10 / C11 were run again after the watchdog correction of section 9); all 20
+unchanged tree through `vp run` (several runs side by side, so the wall times are those of a loaded 16-core machine; the
+history checks are dominated by their libFuzzer stage, which also takes about 15 min on the idle machine (C08 alone:
+1 073 s), the schedule checks by their enumerations, which are 2-3 times faster alone; C03 / C10 / C11 were run again after the watchdog correction of section 9); all 20
 ended with exit 0 (C01, C04, C10 printing their KNOWN-FINDING line). The libFuzzer part is 16 jobs x 150 000 runs for
 the history properties (bytes decoded into the history grammar, judged by the same monitor in-target).
 
